@@ -58,13 +58,17 @@ pub struct StrFailCase {
     pub k: u32,
     pub all: bool,
     pub op: StrOp,
+    /// the arena owns a second, currently unused chunk (left behind by an earlier scope) when the string is created
+    pub retained: bool,
+    /// finalise right after the failed operation (no further push in between)
+    pub direct: bool,
 }
 
 const INITS: [&str; 5] = ["", "a", "é", "éb", "éb€"];
 
 impl StrFailCase {
     pub fn text(&self) -> String {
-        format!("strfail:cfg={};kind={:?};pad={};cap={};init={};k={};all={};op={:?}", self.ci, self.kind, self.pad, self.cap, self.init, self.k, self.all as u8, self.op)
+        format!("strfail:cfg={};kind={:?};pad={};cap={};init={};k={};all={};ret={};direct={};op={:?}", self.ci, self.kind, self.pad, self.cap, self.init, self.k, self.all as u8, self.retained as u8, self.direct as u8, self.op)
     }
 }
 
@@ -133,6 +137,12 @@ where
     SlabZ: BaseAllocator<S::GuaranteedAllocated>,
 {
     let mut bump: B<S> = Bump::new_in(SlabZ);
+    if c.retained {
+        bump.scoped(|s| {
+            let rem = s.stats().remaining();
+            let _ = s.alloc_slice_fill(rem + 1, 0u8);
+        });
+    }
     if c.pad > 0 {
         let _ = bump.alloc_slice_fill(c.pad, 0x5Au8);
     }
@@ -180,13 +190,21 @@ where
                 return Err(format!("{:?}: len {} / capacity {} inconsistent with {} bytes", c.op, $s.len(), $s.capacity(), got.len()));
             }
             // the string keeps working afterwards
-            if $s.try_push('ß').is_err() {
-                return Err("try_push after the fault was lifted failed".into());
+            if !c.direct {
+                if $s.try_push('ß').is_err() {
+                    return Err("try_push after the fault was lifted failed".into());
+                }
+                model.push('ß');
+                if $s.as_bytes() != model.as_bytes() {
+                    return Err(format!("after the failed {:?} and one more push the bytes are {:?}, expected {:?}", c.op, $s.as_bytes(), model.as_bytes()));
+                }
             }
-            model.push('ß');
-            if $s.as_bytes() != model.as_bytes() {
-                return Err(format!("after the failed {:?} and one more push the bytes are {:?}, expected {:?}", c.op, $s.as_bytes(), model.as_bytes()));
+            // finalising after the failure hands out exactly the contents
+            let boxed = $s.into_boxed_str();
+            if boxed.as_bytes() != model.as_bytes() {
+                return Err(format!("into_boxed_str after the failed {:?} holds {:?}, expected {:?}", c.op, boxed.as_bytes(), model.as_bytes()));
             }
+            drop(boxed);
             failed
         }};
     }
@@ -200,7 +218,20 @@ where
             scenario!(s)
         }
     };
-    // the padding allocated before the string is intact
+    // the arena is still coherent and keeps working
+    let st = bump.stats();
+    for ch in st.small_to_big() {
+        let (lo, hi, pos) = (ch.content_start().as_ptr() as usize, ch.content_end().as_ptr() as usize, ch.bump_position().as_ptr() as usize);
+        if pos < lo || pos > hi {
+            return Err(format!("after the failed {:?} a chunk's bump position {pos:#x} lies outside its content range {lo:#x}..{hi:#x}", c.op));
+        }
+    }
+    if st.allocated() > st.capacity() {
+        return Err(format!("after the failed {:?} allocated() = {} exceeds capacity() = {}", c.op, st.allocated(), st.capacity()));
+    }
+    if bump.try_alloc(0x7777_7777u32).map(|b| *b).ok() != Some(0x7777_7777) {
+        return Err("the arena refused a small allocation after the fault was lifted".into());
+    }
     Ok(failed)
 }
 
@@ -270,7 +301,9 @@ pub fn explore_str_failures(thorough: bool, _deadline: Instant) -> (J, Vec<J>) {
                         for &op in &ops {
                             for k in 0..if thorough { 3 } else { 2 } {
                                 for all in [true, false] {
-                                    cases.push(StrFailCase { ci, kind, pad, cap, init, k, all, op });
+                                    for (retained, direct) in [(false, false), (true, true), (true, false), (false, true)] {
+                                        cases.push(StrFailCase { ci, kind, pad, cap, init, k, all, op, retained, direct });
+                                    }
                                 }
                             }
                         }
@@ -320,7 +353,7 @@ pub fn explore_str_failures(thorough: bool, _deadline: Instant) -> (J, Vec<J>) {
         .set("states", ev)
         .set("transitions", ev)
         .set("traces_validated_against_impl", ev)
-        .set("rule", "string part of C07: {BumpString, MutBumpString} x 4 arena configurations x bytes allocated before the string (so that every spare-capacity / chunk-remainder combination occurs) x requested capacity x initial contents (ASCII and multi-byte) x every try_ growth operation (try_push / write_char of 1-4 byte chars, try_insert at 3 positions, try_push_str / write_str / try_insert_str / try_replace_range with 6 source strings, try_reserve(_exact) and try_extend_zeroed with 0/1/4/40/400, try_extend_from_within, write!) x fault plan (the k-th base-allocator call after the string exists fails, alone or with all later ones); a refused call must yield Err with length and bytes unchanged (never a truncated UTF-8 sequence; write! may keep complete earlier pieces), no panic, and the string keeps working after the fault is lifted; non-trivial = cases in which the operation actually failed")
+        .set("rule", "string part of C07: {BumpString, MutBumpString} x 4 arena configurations (with and without a second, unused chunk retained from an earlier scope) x bytes allocated before the string (so that every spare-capacity / chunk-remainder combination occurs) x requested capacity x initial contents (ASCII and multi-byte) x every try_ growth operation (try_push / write_char of 1-4 byte chars, try_insert at 3 positions, try_push_str / write_str / try_insert_str / try_replace_range with 6 source strings, try_reserve(_exact) and try_extend_zeroed with 0/1/4/40/400, try_extend_from_within, write!) x fault plan (the k-th base-allocator call after the string exists fails, alone or with all later ones); a refused call must yield Err with length and bytes unchanged (never a truncated UTF-8 sequence; write! may keep complete earlier pieces), no panic, the string keeps working after the fault is lifted, finalising it (into_boxed_str, directly or after one more push) hands out exactly its contents and the arena stays coherent; non-trivial = cases in which the operation actually failed")
         .set("samples", samples)
         .set("exhaustive", true);
     let space = J::obj()
@@ -388,6 +421,8 @@ pub fn replay(case: &str) -> Option<String> {
         k: m["k"].parse().ok()?,
         all: m["all"] == "1",
         op,
+        retained: m.get("ret").is_some_and(|r| r == "1"),
+        direct: m.get("direct").is_some_and(|r| r == "1"),
     };
     str_fail_case(&c).err()
 }
